@@ -1365,6 +1365,14 @@ _NEW_BULK_API = '''
     def _start(self) -> None:'''
 mut('c14-bulk-entry-point', 'C14', ['C14.6'], S, "\n    def _start(self) -> None:", _NEW_BULK_API, 'events enter the history through a bulk entry point before they are enqueued')
 mut('c15-bulk-entry-point', 'C15', ['C15.8'], S, "\n    def _start(self) -> None:", _NEW_BULK_API, 'echo')
+mut('c15-history-before-put', 'C15', ['C15.11'], S,
+    "                self.event_queue.put_nowait(event)\n                # Only add to history after successfully queuing\n                self.event_history[event.event_id] = event\n",
+    "                self.event_history[event.event_id] = event\n                self.event_queue.put_nowait(event)\n",
+    'echo of c14-history-before-put: a rejected dispatch stays pending in the history, the bus never goes idle again')
+mut('c15-swallow-queuefull', 'C15', ['C15.11'], S,
+    "                raise  # could also block indefinitely until queue has space, but dont drop silently or delete events\n",
+    "                pass\n",
+    'echo of c14-swallow-queuefull')
 
 # ---- round 5 obligations
 mut('c15-start-only-if-never-started', 'C15', ['C15.9'], S,
